@@ -1,10 +1,27 @@
-"""setup: pre-build the runner and the dependency graph (offline)."""
+"""setup: pre-build the runner and warm the dependency graphs (offline). Every check rebuilds what it needs
+anyway; this only moves the one-off compilation of syn/quote/proc-macro2/educe/verif_rt out of the checks."""
+import os
+
+from . import behave as BH
 from . import build as B
-from .common import log
+from . import harness as H
+from .common import WORK, base_env, log, run
 
 
 def main():
     B.build_inproc("release")
     B.build_inproc("debug")
-    log("setup: in-process runner built")
+    log("setup: in-process runner built (release, debug)")
+    p = H.Program()
+    p.add_case("warm", "pub mod warm {\n#[derive(::educe::Educe)]\n#[educe(Debug, Clone, PartialEq)]\npub struct S(pub u8);\n"
+               "pub fn run() { ::verif_rt::guarded(\"warm\", || { ::verif_rt::begin(); ::verif_rt::obs(\"warm\", \"x\", 0, -1, "
+               "&format!(\"{:?}\", S(1).clone() == S(1))); }); }\n}\n", "warm::run();")
+    for release in (False, True):
+        H.compile_programs("warm", {"w0": p}, release=release)
+    log("setup: D1 stable targets warmed")
+    try:
+        BH.run_miri("warm", {"w0": p}, {})
+        log("setup: Miri target warmed")
+    except Exception as e:  # Miri is only needed by C04/C09/C20; they report its absence themselves
+        log("setup: Miri warm-up failed: %s" % e)
     return 0
